@@ -470,6 +470,31 @@ def run_eptreq(case) -> dict:
     return {"viol": viol, "digest": label, "key": common.key_hash(case), "fired": {}, "probes": {"ept_map_request_round_trips": 1, "ept_map_request_%d_floors" % n: 1}, "vtime_ns": 0}
 
 
+def run_vtsweep(case) -> dict:
+    """["vtsweep", k]: a long-lived process meets many different (unknown) verification-trailer command types - 400 well-formed
+    trailers in a row, each with a command type not seen before in this case, each decoded and re-encoded."""
+    import dpapi_ng._rpc as rpc
+
+    _, k = case
+    viol = None
+    n_ok = 0
+    for j in range(400):
+        cmd = 0x0100 + ((k * 409 + j * 7) % 0x3E00)  # 14-bit command space, away from the three known commands
+        raw = rpce.build_vt([(cmd, bytes(range(j % 9))), rpce.vt_pcontext(rpce.ISD_KEY_IF, rpce.NDR64, end=True)])
+        try:
+            vt = rpc.VerificationTrailer.unpack(raw)
+            again = bytes(vt.pack())
+        except Exception as e:  # noqa: BLE001
+            viol = common.violation("C12", "codec", "sequential", "well-formed-trailer-not-decoded", "vt", type(e).__name__,
+                                    f"verification trailer #{j + 1} of a sweep over unknown command types (command 0x{cmd:04x}): {e!r}")
+            break
+        if again != raw:
+            viol = common.violation("C12", "codec", "sequential", "re-encode-differs", "vt", "", f"verification trailer with unknown command 0x{cmd:04x}: decode + encode changes the bytes")
+            break
+        n_ok += 1
+    return {"viol": viol, "digest": f"vtsweep{k}:{n_ok}", "key": common.key_hash(case), "fired": {}, "probes": {"vt_command_sweeps": 1}, "vtime_ns": 0}
+
+
 def run_scale(case) -> dict:
     """["scale", shape, k]: a structured hostile ept_map result (checks.epmstub) of a size proportional to k is decoded; the traced
     lines must stay within 20000 + 30*len (the unchanged decoder needs < 3 lines per byte on these shapes)."""
@@ -661,14 +686,14 @@ class C12(common.Check):
             "flags, minor version, call ids) sent to the client. (tear) one message of a full "
             "EPM+GKDI conversation is garbled in flight (towards LibDC or towards the client: truncation with consistent frag_len, bit flips, "
             "NDR count rewrites up to 2^64-1, growth) under a traced-line budget; (threads) 2..4 caller threads of one process run codec "
-            "computations at the same time, pre-empted at PRNG-chosen line events inside dpapi_ng, and every result must equal the one computed alone (also as the first thing a new interpreter does, one child process per case); (eptreq) ept_map requests with 0..5 floors, null / non-null object UUID and lookup handle encoded, decoded and re-encoded by the library; (scale) structured hostile ept_map results (many towers with tiny declared lengths and "
+            "computations at the same time, pre-empted at PRNG-chosen line events inside dpapi_ng, and every result must equal the one computed alone (also as the first thing a new interpreter does, one child process per case); (vtsweep) 400 verification trailers in a row with command types not seen before; (eptreq) ept_map requests with 0..5 floors, null / non-null object UUID and lookup handle encoded, decoded and re-encoded by the library; (scale) structured hostile ept_map results (many towers with tiny declared lengths and "
             "floor counts reaching to the end of the stub) of growing size under a budget of 20000 + 30*len traced lines. Non-trivial = every case; distinct = distinct tuple.")
     components = {"client": "real (all client-direction codecs, RpcClient)", "LibDC": "real codecs in the server role (Bind/AlterContext/Request/"
                   "VerificationTrailer/EptMap/GetKey decode, BindAck/AlterContextResponse/Response/Fault/BindNak/EptMapResult/GroupKeyEnvelope encode)",
                   "reference server / monitor": "model (ref.rpce)", "security context": "stub", "transport": "simulated, with in-flight adversary"}
     assumptions = ["decode(encode(x)) = x is claimed only for messages that cross the wire between the three parties (values no party sends are outside the technique)",
                    "NDR referent ids are free: NDR64 stubs are compared through the independent decoder"]
-    required_fired = ("codec_lib", "codec_ref", "reqtear", "replytear", "tear_vt", "libenc", "libenc_drep_be", "thread_cases", "thread_overlap", "scale_cases", "catalogue_round_trips", "ept_map_request_round_trips", "ept_map_request_0_floors", "ept_map_request_5_floors", "thread_cases_in_new_process") + tuple("tower_len_mod8_%d" % i for i in range(8)) + tuple("vt_kind_%d" % i for i in range(9))
+    required_fired = ("codec_lib", "codec_ref", "reqtear", "replytear", "tear_vt", "libenc", "libenc_drep_be", "thread_cases", "thread_overlap", "scale_cases", "catalogue_round_trips", "ept_map_request_round_trips", "ept_map_request_0_floors", "ept_map_request_5_floors", "thread_cases_in_new_process", "vt_command_sweeps") + tuple("tower_len_mod8_%d" % i for i in range(8)) + tuple("vt_kind_%d" % i for i in range(9))
 
     def cases(self, tier, seed):
         out = []
@@ -706,6 +731,8 @@ class C12(common.Check):
             out.append(["fresh", ["threads", rng.getrandbits(30), 2 + k % 3, pol]])
         for k in range(0, 144 if tier == "quick" else 3000):
             out.append(["eptreq", k])
+        for k in range(0, 32 if tier == "quick" else 400):
+            out.append(["vtsweep", k])
         from checks import epmstub
 
         for shape in epmstub.SHAPES:
@@ -726,7 +753,7 @@ class C12(common.Check):
         if case[0] == "fresh":
             return self._run_fresh(case)
         try:
-            return {"conv": run_conv, "epm": run_epm, "types": run_types, "tear": run_tear, "libenc": run_libenc, "threads": run_threads, "scale": run_scale, "cat": run_cat, "eptreq": run_eptreq}[case[0]](case)
+            return {"conv": run_conv, "epm": run_epm, "types": run_types, "tear": run_tear, "libenc": run_libenc, "threads": run_threads, "scale": run_scale, "cat": run_cat, "eptreq": run_eptreq, "vtsweep": run_vtsweep}[case[0]](case)
         except wiremon.MonitorHarnessError as e:
             raise common.HarnessError(str(e))
 
@@ -736,7 +763,7 @@ class C12(common.Check):
             k = (c[0], c[1], c[2]) if c[0] in ("tear", "conv", "epm") else (c[0],)
             if c[0] == "tear":
                 k = k + (c[3],)
-            if k not in seen and c[0] not in ("threads", "scale", "cat", "eptreq", "fresh"):
+            if k not in seen and c[0] not in ("threads", "scale", "cat", "eptreq", "fresh", "vtsweep"):
                 seen.add(k)
                 try:
                     self.run_case(c)
@@ -763,7 +790,7 @@ class C12(common.Check):
         names = {"conv": ("kind", "codec", "flavour", "n_contexts", "n_transfer_syntaxes", "sec_addr_len", "token_size", "stub_len", "vt_variant", "reply_len"),
                  "epm": ("kind", "codec", "flavour", "tower_variant", "status"), "types": ("kind", "flavour", "pdu_variant"),
                  "tear": ("kind", "direction", "flavour", "conversation", "seed"), "libenc": ("kind", "flavour", "variant"),
-                 "threads": ("kind", "seed", "n_threads", "policy"), "scale": ("kind", "shape", "k"), "cat": ("kind", "catalogue_index"), "eptreq": ("kind", "k"), "fresh": ("kind", "case")}[case[0]]
+                 "threads": ("kind", "seed", "n_threads", "policy"), "scale": ("kind", "shape", "k"), "cat": ("kind", "catalogue_index"), "eptreq": ("kind", "k"), "fresh": ("kind", "case"), "vtsweep": ("kind", "k")}[case[0]]
         return dict(zip(names, case))
 
 
